@@ -267,6 +267,22 @@ def run_case(structure):
         return ("second-translation-differs",
                 "translating the same hierarchy again called %r, the first time %r"
                 % ([entry[:2] for entry in factories.LOG], [entry[:2] for entry in log]))
+    if not any(entry[0] in OK_KINDS for entry in log):
+        return None
+    # the name is what is configured, not the object it happened to name the first time: with
+    # the factory names bound to other callables, a translation calls those
+    del factories.LOG[:]
+    with factories.rebound():
+        try:
+            Translator().translate_hierarchy(given)
+        except Exception:  # noqa: B902
+            pass
+    want = [("re-" + entry[0] if entry[0] in OK_KINDS else entry[0], entry[1])
+            for entry in log]
+    if [entry[:2] for entry in factories.LOG] != want:
+        return ("stale-factory-after-rebinding",
+                "with the factory names bound to new callables, translating called %r, "
+                "expected %r" % ([entry[:2] for entry in factories.LOG], want))
     return None
 
 
